@@ -596,6 +596,15 @@ theorem compiled_graph_runs_exactly_the_enabled_nodes {V} (ops : ValOps V) (slac
   ⟨(run_justified ops _ h.1 sched hf x).1, run_complete ops _ h.1 h.2.1 sched hf x,
    run_exact ops _ h.1 h.2.1 sched hf x⟩
 
+open EinoV.Engine.DagRun in
+/-- **graphdef_wf_check_sound.** The executable check of `GraphDefWF` the oracle evaluates on every
+    generated all-predecessor case eino compiled (a definition eino accepts and the check rejects
+    is reported, signature `C02:graphdef-wf`) implies it. -/
+theorem graphdef_wf_check_sound {V} (g : GraphDef V) (h : graphDefWFb g = true) : GraphDefWF g :=
+  graphDefWFb_sound g h
+
+example : EinoV.Engine.DagRun.graphDefWFb gDiamond = true := by decide
+
 /-- non-vacuity: the diamond with a three-way branch is such a definition -/
 example : EinoV.Engine.DagRun.GraphDefWF gDiamond where
   dag := rfl
